@@ -608,7 +608,8 @@ def loadTracks (s : Seq) (fmt : Fmt) (smfFormat : Nat) (deltaTicks : Nat) (raw :
   match buildTracks 0 raw { ps := { fmt := fmt } } [] with
   | .error _ => .ok none
   | .ok (tracks, b) =>
-    let b := if b.gotStart && !b.gotEnd then { b with gotEnd := true, loopEndTicks := b.ticksSongLength } else b
+    let implicitEnd := b.gotStart && !b.gotEnd
+    let b := if implicitEnd then { b with gotEnd := true, loopEndTicks := b.ticksSongLength } else b
     let invalid := b.invalidLoop || b.loopStartTicks ≥ b.loopEndTicks
     -- per-track time lines
     let rec timeAll : List (List Row) → List (List Row) → Rat → Rat → Rat → Except Fault (List (List Row) × Rat × Rat × Rat)
@@ -621,6 +622,8 @@ def loadTracks (s : Seq) (fmt : Fmt) (smfFormat : Nat) (deltaTicks : Nat) (raw :
     match timeAll tracks [] 0 (-1) (-1) with
     | .error f => .error f
     | .ok (tracks, full, ls, le) =>
+      -- an implicit loop end stands where the last track ends (m_fullSongTimeLength - m_postSongWaitDelay)
+      let le := if implicitEnd && !invalid then fsub (fadd full s.postWait) s.postWait else le
       let cur : Position := { track := tracks.map fun _ => {} }
       let loopBegin :=
         if !invalid && !cur.track.isEmpty then (scanLoopBegin tracks ls ((tracks.map List.length).sum + 2) cur).getD cur else cur
